@@ -491,7 +491,8 @@ CARRIERS = [
     ("result-in-parentheses", "function fd() return vmod is begin return vmod2(5); end;", "(fd())"),
     ("reverse-declared-result", "function fd2() return vmod2 is begin return vmod(5); end;", "fd2()"),
 ]
-USES = ["zz = %s.get();", "print %s.mod();", "zz = %s.self().get();", "zz = %s.id();", "zz = fpassw(%s);", "b = vmod(%s);", "w = vmod(1); b = w.other(%s);",
+USES = ['t = tab(1, vmod(1)); t.put(0, %s);', 't = tab(1, vmod(1)); t.concat(%s);', 't = tab(1, vmod(1)); t.insert(0, %s);',
+        'u = tup(1, vmod(1)); u.set@2(%s);', 't = tab(1, tup(1, vmod(1))); t.at(0).set@2(%s);', "zz = %s.get();", "print %s.mod();", "zz = %s.self().get();", "zz = %s.id();", "zz = fpassw(%s);", "b = vmod(%s);", "w = vmod(1); b = w.other(%s);",
         "forall q in tab(1, %s) loop zz = q.get(); end loop;", 'zz = %s.add(5, "str", 2.5, true, raw("xy"));', "b = %s.make();"]
 for cname, setup, expr in CARRIERS:
     for use in USES:
@@ -501,7 +502,7 @@ for cname, setup, expr in CARRIERS:
 def wrongmod_gen():
     def gen():
         for n, (text, tag) in enumerate(WRONG):
-            ops = ["isolate", op_ctx(0, True), op_run("import vmod; import vmod2; zz = 0;"), op_run(text), op_out(0), "vlog", "free 0", "vlog"]
+            ops = ["isolate", op_ctx(0, True), op_run("import vmod; import vmod2; zz = 0;"), op_run(text), op_out(0), "vlog", op_dump(0, "T,U"), "free 0", "vlog"]
             yield Case("w%d" % n, ops, {"kind": "wrongmod", "tag": tag, "text": text})
     return gen
 
@@ -509,7 +510,14 @@ def wrongmod_gen():
 def check_wrongmod(case, res, vs):
     m = case.meta
     st = res["steps"]
-    log = st[5].get("log", "") + st[7].get("log", "")
+    log = st[5].get("log", "") + st[8].get("log", "")
+    # containers built for vmod objects hold vmod objects only
+    # (vmod is imported first: its objects have type object#1, those of vmod2 object#2)
+    for name, dv in st[6].get("vars", {}).items():
+        ty, _, val = dv.partition("=")
+        if ("o#vmod2:" in val and "object#1" in ty and "object#2" not in ty) or ("o#vmod:" in val and "object#2" in ty and "object#1" not in ty):
+            vs.append(Violation("wrong-module:container:%s" % m["tag"].split(":")[0], "after %r the container %s holds an object of the other module than its type says: %s" % (
+                m["text"], name, dv[:200]), case))
     for e in parse_log(log):
         if e[0] == "X":
             vs.append(Violation("wrong-module:%s" % m["tag"], "a method or constructor of one module ran on an object of the other: %s (%r gave %s)" % (" ".join(e), m["text"], st[3]), case))
